@@ -241,7 +241,7 @@ func init() {
 		Rule: "a catalogue of construct templates (23 infix ops, prefix, array/object/map literals with * / ** operands, range and slice bounds, receiver, chain argument, positional/keyword/* / ** arguments, callee, index, if branches, guarded return/raise/yield/defer, embedded-string parts, assignments, statements between defers, keyword defaults, pinned keys, 9 chain contexts × 3 call forms with the callee raising at element k, and one level of nesting) whose holes print a marker; a raise (ValueErr or host ZeroDivisionErr) is injected at every hole position, under three handlers (none, try, thoughtful chain). " +
 			"Oracle: nothing is printed after the injected raise's marker except defers registered before it (then the handler's continuation); the delivered outcome is that error (kind, message) at top level, in the Either, or replaced by the receiver; no *PanErr is stored inside any value reachable from the result or the scope. " +
 			"distinct = distinct (template, fault position, raiser, handler) tuples in which the raise marker was actually printed" +
-			" Added: raises coming from the receiver's iterator (list/reduce chains × 3 forms, `.A`, `.reduce`, `next`), chain argument followed by call arguments in property form, every native Iterable prop driven by an iterator whose element k raises; thorough nests every template (incl. chain templates) in 11 outer constructs at both positions.",
+			" Added: raises coming from the receiver's iterator (list/reduce chains × 3 forms, `.A`, `.reduce`, `next`), chain argument followed by call arguments in property form, every native Iterable prop driven by an iterator whose element k raises; thorough nests every template (incl. chain templates) in 11 outer constructs at both positions. Sixth round: variable- and literal-call spellings with a chain argument whose callee prints; ranges over user objects whose `_incBy` / `<=>` raise.",
 		Assumptions: []string{
 			"which markers appear before the raise marker is not judged here (evaluation order is C08's subject)",
 			"errors raised inside conversion hooks the interpreter invokes itself (B, S, ==) are excluded by the statement and not used as fault positions",
